@@ -92,9 +92,43 @@ class Roles:
         return src(T().visit(e2))
 
 
+class _FoldNames(ast.NodeTransformer):
+    """`'all_' + 'predecessors'` -> `'all_predecessors'`;  `getattr(x, 'name')` -> `x.name` (attribute chosen by a constant string,
+    e.g. after a helper with a direction parameter was inlined)"""
+
+    def visit_BinOp(self, n):
+        self.generic_visit(n)
+        if isinstance(n.op, ast.Add) and isinstance(n.left, ast.Constant) and isinstance(n.right, ast.Constant) and \
+                isinstance(n.left.value, str) and isinstance(n.right.value, str):
+            return ast.copy_location(ast.Constant(value=n.left.value + n.right.value), n)
+        return n
+
+    def visit_JoinedStr(self, n):
+        self.generic_visit(n)
+        if all(isinstance(v, ast.Constant) and isinstance(v.value, str) or
+               (isinstance(v, ast.FormattedValue) and isinstance(v.value, ast.Constant) and isinstance(v.value.value, str)
+                and v.conversion == -1 and v.format_spec is None) for v in n.values):
+            return ast.copy_location(ast.Constant(value=''.join(v.value if isinstance(v, ast.Constant) else v.value.value for v in n.values)), n)
+        return n
+
+    def visit_Call(self, n):
+        self.generic_visit(n)
+        if isinstance(n.func, ast.Name) and n.func.id == 'getattr' and len(n.args) == 2 and not n.keywords and \
+                isinstance(n.args[1], ast.Constant) and isinstance(n.args[1].value, str) and n.args[1].value.isidentifier():
+            return ast.copy_location(ast.Attribute(value=n.args[0], attr=n.args[1].value, ctx=ast.Load()), n)
+        return n
+
+
+def fold_names(e: ast.AST) -> ast.AST:
+    if not any(isinstance(n, ast.Call) and isinstance(n.func, ast.Name) and n.func.id == 'getattr' for n in ast.walk(e)):
+        return e
+    return ast.fix_missing_locations(_FoldNames().visit(copy.deepcopy(e)))
+
+
 def canon_atom(e: ast.AST, render) -> Optional[Tuple[str, bool]]:
     """(atom text, polarity flip) for a single comparison / call; None when the shape is not recognised"""
     flip = False
+    e = fold_names(e)
     while isinstance(e, ast.UnaryOp) and isinstance(e.op, ast.Not):
         e, flip = e.operand, not flip
     if isinstance(e, ast.Compare) and len(e.ops) == 1:
@@ -514,6 +548,9 @@ def implication(R, fs: List) -> Optional[dict]:
     return None
 
 
+_KNOWN_CONTAINERS = ('arg', 'self._list', 'self._Task__children', 'self._Task__predecessors', 'self._Task__successors')
+
+
 def require(ctx, o, f: Func, label: str, R, writes, eff, needs_elem: bool, mode_filter=None):
     """obligation step: requirement R must be rejected with RuntimeError before any relation write of f"""
     cfg = cfg_of(f)
@@ -548,7 +585,12 @@ def require(ctx, o, f: Func, label: str, R, writes, eff, needs_elem: bool, mode_
             o.refute(f, not_elem[0].node, label, f"[{label}] is not evaluated for every element of the argument")
             return False
     opaque = sorted({a for g in early + late for a in g.opaque()})
-    by_id = [a for a in opaque if '.id' in a and ('==' in a or '!=' in a)]
+    # membership in a container the vocabulary does not know (and the requirement does not mention) is uninterpreted, too
+    opaque += sorted({'opaque:' + a for g in early + late for a in atoms_of(g.formula)
+                      if a.startswith('in(') and a not in atoms_of(R) and 'opaque:' + a not in opaque
+                      and a[:-1].split(',', 1)[-1] not in _KNOWN_CONTAINERS})
+    by_id = [a for a in opaque if '.id' in a and ('==' in a or '!=' in a or
+                                                  (a.startswith('opaque:in(') and a[10:].split(',', 1)[0].endswith('.id')))]
     if by_id:
         o.refute(f, f.node, label, f"[{label}] depends on `{by_id[0][7:][:80]}`, a comparison of task IDS: equal ids are exactly what must not be "
                                    f"trusted here")
@@ -591,3 +633,24 @@ def unfolded_raising_helpers(ctx, f: Func, eff) -> List[str]:
             if eff.direct_raises(t) and not any(k[0] in REL_FIELDS for k in eff.writes_star(t)):
                 out.append(t.qual)
     return sorted(set(out))
+
+
+def expand_call(prog, f: Func, typer, call: ast.Call, inline: bool = False) -> ast.AST:
+    """the call with hoisted locals expanded, INCLUDING a receiver local that is defined once as a facade/getter expression and then
+    used for a mutating call (`top = wbs._root().children; top.append(x)` -> `wbs._root().children.append(x)`), which the Expander
+    keeps opaque because the name is "mutated".  Exact as long as the local has that single plain definition."""
+    ex = Expander(prog, f, typer, inline=inline)
+    cfg = cfg_of(f)
+    at = cfg.node_containing(call)
+    out = ex.expand(call, at)
+    fl = flow_of(f)
+    fn = out.func if isinstance(out, ast.Call) else None
+    if isinstance(fn, ast.Attribute) and isinstance(fn.value, ast.Name) and at is not None:
+        d = fl.unique_def(fn.value.id, at)
+        if d is not None and d.kind == 'assign' and d.value is not None and d.node is not None and d.node is not at and \
+                len(fl.defs_of(fn.value.id)) == 1:
+            new = copy.copy(out)
+            new.func = copy.copy(fn)
+            new.func.value = ex.expand(d.value, d.node)
+            out = new
+    return out
